@@ -58,7 +58,7 @@ fn st_insert(sh: Shape) {
         let pending = if l0 > 0 { l0 } else if acct::allocs() == 1 { main_len0 } else { 0 };
         let step = if pending < R_SPEC { pending } else { R_SPEC };
         assert!(l1 == pending - step, "[C03] a key-adding call did not move min(R, remaining) leftovers");
-        post_freed_if_empty(&m);
+        post_freed_if_empty(&m, usize::MAX); // a key-adding call releases an empty old table in any case
         if l1 == 0 {
             assert!(acct::live() <= 1, "[C03] old table not deallocated once emptied");
         }
@@ -116,7 +116,7 @@ fn st_remove(sh: Shape) {
     assert!(acct::allocs() == 0 && acct::rehash() == 0, "[C02] remove allocated or rehashed");
     assert!(acct::removes() == if pre_k.is_some() { 1 } else { 0 } && acct::inserts() == 0, "[C02] remove moved elements");
     assert!(old_len(&m) == l0 - if k_in_old { 1 } else { 0 }, "[C03] remove changed the leftovers unexpectedly");
-    post_freed_if_empty(&m);
+    post_freed_if_empty(&m, l0);
     post_inv(&m, &sq);
     kani::cover!(k_in_old, "cls: removed an old-table element");
     kani::cover!(k_in_old && !is_split(&m), "cls: removal emptied and freed the old table");
@@ -243,12 +243,13 @@ fn st_remove_entry(sh: Shape) {
     let pre_q = ref_get(&m, &q);
     let sk = scan(&m, &k);
     let n = m.len();
+    let l0 = old_len(&m);
     let r = m.remove_entry(&k);
     assert!(r == sk.val.map(|v| (k, v)), "[C01] remove_entry returned a wrong pair");
     assert!(m.len() == n - if sk.val.is_some() { 1 } else { 0 }, "[C01] len() wrong after remove_entry");
     let sq = scan(&m, &q);
     assert!(sq.val == if q == k { None } else { pre_q }, "[C01] contents wrong after remove_entry");
-    post_freed_if_empty(&m);
+    post_freed_if_empty(&m, l0);
     post_inv(&m, &sq);
     kani::cover!(sk.val.is_some() && sk.in_old, "cls: removed an old-table element");
     kani::cover!(true, "reach: end of harness");
